@@ -81,7 +81,11 @@ extern "C" void vf_main(void) {
 #endif
   vf_assume(size <= VF_CAP);
   const uint32_t a = vf_in_u32();      // position / index / count (op specific)
+#ifdef VF_B
+  const uint32_t b = VF_B; (void)vf_in_u32();
+#else
   const uint32_t b = vf_in_u32();      // second position / count
+#endif
   const uint32_t ai = vf_in_u32();     // alias index
   const uint32_t x = vf_norm<T>(vf_in_u32());
   uint32_t ys[3]; for (unsigned i = 0; i < 3; ++i) ys[i] = vf_norm<T>(vf_in_u32());
